@@ -40,6 +40,12 @@ var c11Concrete = []string{
 	"QX EQU 3 ; RESB QX ; DB QX",
 	"QX EQU 0x7c00 ; ORG QX ; here: ; DW here",
 	"QX EQU 8 ; QY EQU QX*2 ; RESB QY-QX ; DB QY",
+	// the name as the scale factor of an index register, and as a chained offset
+	"[BITS 32] ; QX EQU 4 ; MOV EAX,[EBX+ECX*QX] ; NOP",
+	"[BITS 32] ; QX EQU 2 ; QY EQU QX*8 ; MOV EAX,[ESI*QX+QY] ; MOV [EBX+EDI*QX+QY],ECX",
+	"QX EQU 4 ; MOV AX,[EBX+ECX*QX] ; NOP",
+	// the name used in a product first, then again
+	"QX EQU 512 ; DW QX*18 ; DW QX ; MOV AX,QX",
 }
 
 // inlineEqu removes the EQU statements and substitutes their parenthesised
